@@ -47,7 +47,8 @@ ADDSETS = {
     "counter": ["collections.Counter", "pickle.loads"],
 }
 # what else is armed on top of the ML environment while the probe runs
-OVERLAYS = ["none", "global-check", "context", "reactivated"]      # reactivated: another activation (with
+OVERLAYS = ["none", "global-check", "context", "reactivated", "preloaded"]   # preloaded: an earlier activation that
+#                                                   allowed everything really loaded the same payload, then was removed      # reactivated: another activation (with
 #                                                                     other additions) precedes, not removed
 
 FINALS = {
@@ -187,6 +188,21 @@ def run_case(ctx, mods, base, cache, chain, kind, final, entry, aname, overlay="
     if overlay == "reactivated":
         hook.activate_safe_ml_environment(also_allow=["vp_sink.hit", "collections.Counter", "pickle.loads",
                                                       "_pickle.loads", "torch.load", "decimal.Decimal"])
+    if overlay == "preloaded":
+        wide = ["vp_sink.hit", "collections.Counter", "pickle.loads", "_pickle.loads", "torch.load", "decimal.Decimal",
+                "string.Formatter"]
+        hook.activate_safe_ml_environment(also_allow=wide)
+        try:
+            for fn_ in (pickle.loads, _pickle.loads):
+                fn_(data)
+            pickle.load(io.BytesIO(data))
+            agg.count("preloads_done")
+        except BaseException:
+            agg.count("preloads_raised")
+        finally:
+            hook.remove_hook()
+            pickle.load, pickle.loads, _pickle.load, _pickle.loads = ORIG
+            del vp_sink.LOG[:]
     hook.activate_safe_ml_environment(also_allow=list(adds) if adds else None)
     cm = None
     try:
